@@ -69,7 +69,7 @@ def diff_case(draw: Any) -> dict[str, Any]:
         "kind": "diff",
         "prog": prog,
         "layout": draw(st.integers(0, 5)),
-        "data": draw(data_strategy()),
+        "data": draw(data_strategy(allow_empty=True)),
         "loader": draw(st.sampled_from(LOADERS)),
         "mask": draw(st.integers(0, 15)),
         "via": draw(st.sampled_from(["from_string", "get_template"])),
@@ -87,7 +87,7 @@ def sched_case(draw: Any) -> dict[str, Any]:
         "kind": "sched",
         "progs": progs,
         "layout": draw(st.integers(0, 3)),
-        "data": [draw(data_strategy()) for _ in range(n)],
+        "data": [draw(data_strategy(allow_empty=True)) for _ in range(n)],
         "loader": draw(st.sampled_from(["dict", "cdict", "cdict-ns", "cchoice", "adict", "acdict", "acdict", "acdict-ns"])),
         "mask": draw(st.integers(0, 15)),
         "schedule": draw(st.lists(st.integers(0, 5), max_size=40)),
